@@ -5,7 +5,8 @@ for d in seeded/*/; do
   name=$(basename $d); prop=$(python3 -c "import json;print(json.load(open('$d/meta.json'))['property'])")
   chk=$(tools/tryseed.sh /verif/$d/patch.diff $prop 2>&1)
   det=$(echo "$chk" | grep -c "^VIOLATION")
-  echo "$chk" | grep "obligation .* failed\|contract .* no longer binds" | sed 's/govc: obligation //' | cut -c1-200 | head -4 > $d/detection.txt
+  if echo "$chk" | grep -q "PATCH DOES NOT APPLY"; then echo "$d STALE (patch no longer applies: re-create it against the current tree)"; continue; fi
+  echo "$chk" | grep " failed: \|no longer binds" | cut -c1-200 | head -4 > $d/detection.txt
   python3 - "$d" "$det" <<PY
 import json,sys
 d,det=sys.argv[1:3]
